@@ -15,7 +15,34 @@ RULE = ("kinds: tree (random op tree, depth <= 4, over 1-2 random parent screens
         "of views of two different parent objects incl. content-equal ones, empty concat), to_screen (tree, then to_screen()), plates "
         "(Screen.plates), split (subset_observed + subset_unobserved), unique_raw (select_unique_zipped_numpy_arrays on 1-3 small-int "
         "columns). Non-trivial: parent with >= 2 rows (unique_raw: >= 2 rows); distinct by canonical description.")
-THEOREMS = {}
+THEOREMS = {
+    "C14_constructed_screens": "every screen the constructor returns satisfies the side conditions screen_wf / screen_valid used below",
+    "C14_selected_rows": "np.where(selection) is strictly increasing and lists exactly the true positions",
+    "C14_attr_exact": "a[selection] = the parent's values at the selected indices, in parent order (any per-row array)",
+    "C14_view_attrs": "plate/sample/treatment ids, rows (names, doses, observation, mask, plate name) and size of a view are the parent's at np.where(selection)",
+    "C14_subset_compose": "v.subset(inner) is a new view of the same parent selecting select(inner, rows of v); any attribute = inner applied to v's attribute",
+    "C14_subset_total": "a bool mask of the view's size is always accepted; result = inner mask scattered at v's true positions",
+    "C14_subset_refused": "non-bool mask or mask of the wrong length is refused",
+    "C14_combine_union": "combine selects row i iff a or b selects it; same parent",
+    "C14_combine_total": "two views of the same parent always combine",
+    "C14_concat_union": "concat selects row i iff some argument selects it; all arguments carry the result's parent",
+    "C14_concat_single_and_empty": "concat([v]) is v itself; concat([]) is refused",
+    "C14_invert_complement": "invert selects exactly the rows the view does not",
+    "C14_observed_split": "observed/unobserved views select exactly the rows with mask true/false (disjoint, exhaustive), None iff that side is empty",
+    "C14_get_plate": "get_plate(pid) selects exactly the rows whose plate id is pid",
+    "C14_plates_partition": "plates = one view per distinct plate id in ascending order; every row lies on exactly one",
+    "C14_to_screen_rows": "to_screen yields a screen with the view's rows in the same order, same arity and control name",
+    "C14_to_screen_total": "to_screen never fails on a view of a constructor-built screen",
+    "C14_unique_mask_first": "select_unique mask keeps row i iff no earlier row has the same key (the index np.unique(return_index) returns)",
+    "C14_unique_mask_exactly_one": "kept keys are pairwise distinct and every key is kept",
+    "C14_unique_exactly_one": "filter_dataset_to_unique_treatments on a view keeps, per distinct (sample id, treatment ids), exactly the first selected row",
+    "C14_unique_total": "the unique filter never fails on a well-formed view",
+    "C14_different_parent_refused": "combine / concat of views whose parents differ in identity are refused",
+    "C14_closure": "every op tree that evaluates to a view yields a view of the tree's parent whose selected rows equal the index-set reference semantics",
+    "C14_closure_selection_vector": "... and whose selection_vector is the characteristic vector of that index set",
+    "C14_closure_attributes": "... and whose every attribute is the parent's values at that index list",
+    "C14_closure_ref_sorted": "the reference index list is strictly increasing and in range",
+}
 ASSUMPTIONS = [
     "np.unique(axis=0, return_index=True) returns, for each distinct row, the index of its first occurrence (numpy uses a stable sort "
     "when return_index is set); modelled as such and exercised by every unique / unique_raw case",
